@@ -429,7 +429,9 @@ func writeComputedFieldExpression(w *formatting.IndentedWriter, expression dsl.E
 		case *dsl.BinaryExpression:
 			tail.Run(func() {
 				requiresParentheses := false
-				if l, ok := t.Left.(*dsl.BinaryExpression); ok && l.Operator.Precedence() < t.Operator.Precedence() {
+				// ** is right-associative in Python: (a ** b) ** c keeps its parentheses
+				if l, ok := t.Left.(*dsl.BinaryExpression); ok && (l.Operator.Precedence() < t.Operator.Precedence() ||
+					(l.Operator.Precedence() == t.Operator.Precedence() && t.Operator == dsl.BinaryOpPow)) {
 					requiresParentheses = true
 				}
 
@@ -461,7 +463,9 @@ func writeComputedFieldExpression(w *formatting.IndentedWriter, expression dsl.E
 				w.WriteString(" ")
 
 				requiresParentheses = false
-				if r, ok := t.Right.(*dsl.BinaryExpression); ok && r.Operator.Precedence() < t.Operator.Precedence() {
+				// the other operators are left-associative: a - (b - c) keeps its parentheses
+				if r, ok := t.Right.(*dsl.BinaryExpression); ok && (r.Operator.Precedence() < t.Operator.Precedence() ||
+					(r.Operator.Precedence() == t.Operator.Precedence() && t.Operator != dsl.BinaryOpPow)) {
 					requiresParentheses = true
 				}
 
